@@ -334,11 +334,13 @@ def main():
     if crashes:
         for c in crashes:
             print('CRASH property=%s %s' % (pid, c))
-        return 3
     if violations:
+        # a violation found by one layer stands even if the checker crashed on some other function
         for v in violations:
             print(v)
         return 1
+    if crashes:
+        return 3
     if undecided:
         # undecided (solver unknown, construct outside the subset, contract no longer bound to the edited code)
         # is NOT a violation and not an alarm: nothing explored contradicted the property.  The evidence records
